@@ -1152,3 +1152,32 @@ def normalise_option_filter(raw):
                     still.add(h)
         raw['bodies'] = [b for b in raw['bodies'] if not (b['q'] in used and b['q'] not in still)]
     return done
+
+
+def split_tuple_locals(raw, known=None):
+    """`let (a, b, c) = if cond { (x1, y1, z1) } else { (x2, y2, z2) };` keeps three values in one tuple-typed temporary
+    that is only ever built from aggregates and read by field: the temporary is split into one local per component
+    (scalar replacement), so that each component is an ordinary variable with its own definitions.  Returns
+    descriptions."""
+    done = []
+    for b in raw['bodies']:
+        cands = []
+        for li, l in enumerate(b['locals']):
+            ty = l.get('ty') or ''
+            if li > b.get('argc', 0) and li != 0 and ty.startswith('(') and ty.endswith(')') and ',' in ty:
+                cands.append(li)
+        if not cands:
+            continue
+        # only locals with at least two whole aggregate definitions are worth it (a join of alternatives)
+        ndefs = {}
+        for blk in b['blocks']:
+            for st in blk['st']:
+                if st.get('k') == 'assign' and not st['p']['pr'] and st['p']['l'] in cands and st['rv'].get('k') == 'agg' and st['rv'].get('ak') == 'tuple':
+                    ndefs[st['p']['l']] = ndefs.get(st['p']['l'], 0) + 1
+        audited = set(((known or {}).get(b['q']) or {}).get('tuple_joins') or [])
+        for li in cands:
+            # a join the audited version of this function has as well is left as the rules know it
+            if ndefs.get(li, 0) >= 2 and li < len(b['locals']) and b['locals'][li].get('ty') not in audited:
+                if _split_tuple_group(b, li):
+                    done.append('tuple temporary _%d of %s split into its components' % (li, b['q']))
+    return done
